@@ -1,7 +1,7 @@
 #!/bin/bash
 # usage: tools/runall.sh [tier] [seed]  -- runs every registered check sequentially, prints rc and wall time
 TIER=${1:-quick}; export VERIF_SEED=${2:-1}
-cd /verif
+cd "$(dirname "$0")/.."
 for id in $(python3 -c "import json;print(' '.join(c['property_id'] for c in json.load(open('MANIFEST.json'))['checks']))"); do
   t0=$(date +%s.%N)
   out=$(./vf check $id $TIER 2>&1); rc=$?
